@@ -261,6 +261,9 @@ structure Term where
   /-- DECSC slot of the displayed screen / of the other screen -/
   saved : Option Saved := none
   savedOther : Option Saved := none
+  /-- the cell of the last printed base glyph with the cursor state right after printing it
+      (cell x, cell y, cx, cy, pendingWrap): a combining mark joins that cell as long as the cursor state is still the same -/
+  last : Option (Nat × Nat × Nat × Nat × Bool) := none
   /-- strict-tokenizer complaints, in order -/
   malformed : List String := []
   /-- current write-block id -/
@@ -281,13 +284,13 @@ def beginBlock (t : Term) : Term := { t with blocks := t.blocks + 1 }
 /-- external corruption: every cell garbage, pen / link / cursor unknown, modes untouched -/
 def corrupt (t : Term) : Term :=
   { t with grid := Grid.fill t.grid.w t.grid.h Grid.garbageCell, other := Grid.fill t.grid.w t.grid.h Grid.garbageCell,
-           penKnown := false, linkKnown := false, cursorKnown := false, pendingWrap := false }
+           penKnown := false, linkKnown := false, cursorKnown := false, pendingWrap := false, last := none }
 
 /-- the terminal window changed size -/
 def resize (t : Term) (w h : Nat) : Term :=
   { t with cfg := { t.cfg with w := w, h := h },
            grid := Grid.fill w h Grid.garbageCell, other := Grid.fill w h Grid.garbageCell,
-           cx := min t.cx (w - 1), cy := min t.cy (h - 1), pendingWrap := false }
+           cx := min t.cx (w - 1), cy := min t.cy (h - 1), pendingWrap := false, last := none }
 
 def endsInGround (t : Term) : Bool := t.st == .ground
 
@@ -401,8 +404,8 @@ def doWrap (t : Term) : Term :=
 
 def putNarrowAt (t : Term) (cp : Int) : Term :=
   let g := (t.grid.clobber t.blocks t.cx t.cy).set t.cx t.cy (t.glyphCell cp)
-  if t.cx + 1 < t.w then { t with grid := g, cx := t.cx + 1 }
-  else { t with grid := g, pendingWrap := t.modes.autoMargin }
+  if t.cx + 1 < t.w then { t with grid := g, cx := t.cx + 1, last := some (t.cx, t.cy, t.cx + 1, t.cy, t.pendingWrap) }
+  else { t with grid := g, pendingWrap := t.modes.autoMargin, last := some (t.cx, t.cy, t.cx, t.cy, t.modes.autoMargin) }
 
 def putNarrow (t : Term) (cp : Int) : Term :=
   if !t.cursorKnown then t.garbageAll
@@ -414,8 +417,9 @@ def putNarrow (t : Term) (cp : Int) : Term :=
 def putWideAt (t : Term) (cp : Int) : Term :=
   let g := (t.grid.clobber t.blocks t.cx t.cy).set t.cx t.cy (t.glyphCell cp)
   let g := (g.clobber t.blocks (t.cx + 1) t.cy).set (t.cx + 1) t.cy { t.glyphCell cp with runes := [], cont := true }
-  if t.cx + 2 < t.w then { t with grid := g, cx := t.cx + 2 }
-  else { t with grid := g, cx := t.cx + 1, pendingWrap := t.modes.autoMargin }
+  if t.cx + 2 < t.w then { t with grid := g, cx := t.cx + 2, last := some (t.cx, t.cy, t.cx + 2, t.cy, t.pendingWrap) }
+  else { t with grid := g, cx := t.cx + 1, pendingWrap := t.modes.autoMargin,
+                last := some (t.cx, t.cy, t.cx + 1, t.cy, t.modes.autoMargin) }
 
 def putWide (t : Term) (cp : Int) : Term :=
   if !t.cursorKnown then t.garbageAll
@@ -428,16 +432,27 @@ def putWide (t : Term) (cp : Int) : Term :=
       let t := if t.modes.insertMode then t.insertChars 2 else t
       t.putWideAt cp
 
-/-- a combining mark joins the glyph in the previous cell (the cell under the cursor when a wrap is pending) -/
+def addMark (t : Term) (x y : Nat) (cp : Int) : Term :=
+  let c := t.grid.get x y
+  { t with grid := t.grid.set x y { c with runes := (if c.runes.isEmpty then [32] else c.runes) ++ [cp], stamp := t.blocks } }
+
+/-- positional rule: the glyph in the previous cell (the cell under the cursor when a wrap is pending) -/
+def putCombiningPos (t : Term) (cp : Int) : Term :=
+  let x := if t.pendingWrap then t.cx + 1 else t.cx
+  if x = 0 then t
+  else
+    let x := if (t.grid.get (x - 1) t.cy).cont then x - 2 else x - 1
+    t.addMark x t.cy cp
+
+/-- a combining mark joins the glyph printed last if the cursor has not moved since; otherwise the positional
+    rule applies; at column 0 it is dropped -/
 def putCombining (t : Term) (cp : Int) : Term :=
   if !t.cursorKnown then t.garbageAll
   else
-    let x := if t.pendingWrap then t.cx + 1 else t.cx
-    if x = 0 then t
-    else
-      let x := if (t.grid.get (x - 1) t.cy).cont then x - 2 else x - 1
-      let c := t.grid.get x t.cy
-      { t with grid := t.grid.set x t.cy { c with runes := (if c.runes.isEmpty then [32] else c.runes) ++ [cp], stamp := t.blocks } }
+    match t.last with
+    | some (x, y, cx', cy', pw') =>
+      if cx' = t.cx ∧ cy' = t.cy ∧ pw' = t.pendingWrap then t.addMark x y cp else t.putCombiningPos cp
+    | none => t.putCombiningPos cp
 
 /-- print the glyph `cp` occupying `wd` ∈ {0,1,2} columns -/
 def putGlyph (t : Term) (cp : Int) (wd : Nat) : Term :=
